@@ -10,3 +10,4 @@ try:
         print("exit=%d" % r.returncode); print("\n".join(l[:300] for l in lines[-6:]))
 finally:
     subprocess.check_call(["git", "-C", "/repo", "checkout", "--", "."])
+    subprocess.run(["git", "-C", "/repo", "clean", "-fdq"], check=False)  # files a patch added (ignored build output stays)
